@@ -73,6 +73,26 @@ class Prop:
         for (c, f, b), o in zip(cs, outs):
             ctx.count('class:' + c)
         self.oracle(ctx, cs, outs)
+        # end to end: the same payloads carried by NMEA sentences - one sentence, or several fragments handed to
+        # decode() in any order (the layout is selected by the payload's own bits, whatever the carrier)
+        rng = ctx.rng('e2e')
+        sub = [x for x in cs[::6 if ctx.tier == 'quick' else 2] if x[0] != 'unsupported']
+        lines, meta = [], []
+        for c, f, b in sub:
+            nchar = (len(b) + 5) // 6
+            if nchar > 200 * 4:
+                continue
+            k = rng.randint(1 if nchar > 200 else 0, 3)
+            cuts = sorted(rng.sample(range(1, nchar), min(k, nchar - 1)))
+            pts = [0] + cuts + [nchar]
+            if any(q - p_ > 200 for p_, q in zip(pts, pts[1:])):
+                cuts = list(range(150, nchar, 150))
+            sents = gen.render(b, seq=str(rng.randint(1, 9)) if cuts else '', cuts=cuts)
+            rng.shuffle(sents)
+            lines.append('decode 0 ' + ' '.join(x.hex() for x in sents))
+            meta.append((c, f + '/sentences', b))
+        outs2 = ctx.corr(lines, impl.step, 'decode')
+        self.oracle(ctx, meta, outs2, via=lines)
 
     def members(self):
         """member values of the library's enumeration classes (the enumerations are part of its API)"""
@@ -88,7 +108,7 @@ class Prop:
                     out.append('%s:%s' % (name, ','.join(vals)))
         return ';'.join(out) or '-'
 
-    def oracle(self, ctx, cs, outs):
+    def oracle(self, ctx, cs, outs, via=None):
         """the implementation's answer against the layout specification (specification driver: it does
         not depend on the tables generated from the source)"""
         mem = self.members()
@@ -96,14 +116,15 @@ class Prop:
         for (c, f, b), o in zip(cs, outs):
             q.append('spec.check %s %s %s' % (b, o if not o.startswith('ERR:') else 'ERR|', mem))
         res = common.run_spec(q)
-        for (c, f, b), o, r in zip(cs, outs, res):
+        for i, ((c, f, b), o, r) in enumerate(zip(cs, outs, res)):
+            extra = {'op': via[i]} if via else {}
             if o.startswith('ERR:'):
                 if not r.startswith('REJECT:') or r[7:] != o[4:]:
                     ctx.fail('payload rejected (or rejected with the wrong exception) although the layout '
-                             'specification selects a layout', {'bits': b, 'class': c, 'field': f},
+                             'specification selects a layout', dict({'bits': b, 'class': c, 'field': f}, **extra),
                              r, o, {'kind': 'reject', 'class': c})
             elif r != 'OK':
-                ctx.fail('decoded message differs from the published layout', {'bits': b, 'class': c, 'field': f},
+                ctx.fail('decoded message differs from the published layout', dict({'bits': b, 'class': c, 'field': f}, **extra),
                          r, o, {'kind': 'layout', 'class': c, 'detail': r})
 
     def search(self, ctx, broken):
@@ -116,7 +137,10 @@ class Prop:
         inp = payload['failure']['input']
         cs = [(inp.get('class', '?'), inp.get('field', '?'), inp['bits'])]
         ctx.model_available = True
-        self.oracle(ctx, cs, [impl.step('frombits %s' % inp['bits'])])
+        if 'op' in inp:
+            self.oracle(ctx, cs, [impl.step(inp['op'])], via=[inp['op']])
+        else:
+            self.oracle(ctx, cs, [impl.step('frombits %s' % inp['bits'])])
         return not ctx.failures
 
 
